@@ -126,6 +126,18 @@ def evaluate(expr: ast.expr, env: Dict[str, Mono], funcs: Dict[str, ast.Function
                 return Mono(None)
             sign = x.sign if nm in ("sqrt", "float", "sum", "asarray", "array", "cbrt") else ("pos" if nm == "exp" else "any")
             return Mono(x.dir, sign)
+        if nm in ("max", "min", "maximum", "minimum", "fmax", "fmin") and len(expr.args) >= 2:
+            vals = [evaluate(a, env, funcs, fold, depth) for a in expr.args]
+            d = 0
+            for v in vals:
+                d = _join_add(d, v.dir)  # max / min of functions that move the same way (or stand still) moves that way
+            hi = nm in ("max", "maximum", "fmax")
+            signs = [v.sign for v in vals]
+            if hi:
+                sign = "pos" if "pos" in signs else "nonneg" if "nonneg" in signs else "any"
+            else:
+                sign = "pos" if all(x == "pos" for x in signs) else "nonneg" if all(x in ("pos", "nonneg") for x in signs) else "any"
+            return Mono(d, sign)
         if nm in ("abs", "fabs") and expr.args:
             x = evaluate(expr.args[0], env, funcs, fold, depth)
             if x.sign in ("pos", "nonneg"):
